@@ -1,6 +1,6 @@
 use crate::acme_proto::Challenge;
 use crate::hooks::{self, ChallengeHookData, Hook, HookEnvData, HookType, PostOperationHookData};
-use crate::identifier::{Identifier, IdentifierType};
+use crate::identifier::Identifier;
 use crate::logs::HasLogger;
 use crate::storage::{certificate_files_exists, get_certificate, FileManager};
 use acme_common::crypto::{HashFunction, KeyType, SubjectAttribute, X509Certificate};
@@ -58,14 +58,10 @@ impl Certificate {
 	}
 
 	pub fn get_identifier_from_str(&self, identifier: &str) -> Result<Identifier, Error> {
-		let identifier = identifier.to_string();
+		// The wildcard entry and the entry for the bare name are two distinct
+		// identifiers which may use different challenges: match exactly.
 		for d in self.identifiers.iter() {
-			let val = match d.id_type {
-				// strip wildcards from domain before matching
-				IdentifierType::Dns => d.value.trim_start_matches("*.").to_string(),
-				IdentifierType::Ip => d.value.to_owned(),
-			};
-			if identifier == val {
+			if identifier == d.value {
 				return Ok(d.clone());
 			}
 		}
